@@ -63,6 +63,7 @@ struct SinkState {
     script: VecDeque<W>,
     flush_err: bool,
     writes: u64,
+    writes_this_flush: u64,
     flushes: u64,
 }
 
@@ -89,6 +90,11 @@ impl AsyncWrite for Sink {
         let w = {
             let mut s = self.0.borrow_mut();
             s.writes += 1;
+            s.writes_this_flush += 1;
+            if s.writes_this_flush > 5000 {
+                drop(s);
+                panic!("RUNAWAY: more than 5000 writes in one flush");
+            }
             s.script.pop_front()
         };
         let have = buf.as_init().len();
@@ -229,6 +235,7 @@ fn run_case(rep: &mut Report, case: &Value) -> u64 {
                         })
                         .unwrap_or_default();
                     s.flush_err = st["fl"] == "err";
+                    s.writes_this_flush = 0;
                     if s.script.iter().any(|w| matches!(w, W::TooMany)) {
                         lying = true;
                     }
@@ -251,7 +258,12 @@ fn run_case(rep: &mut Report, case: &Value) -> u64 {
                 state.borrow_mut().script.clear();
                 match r {
                     Err(p) => {
-                        rep.problem("panic", json!({"kind": "panic_in_flush"}), format!("flush panicked: {}", panic_msg(p)), case, si);
+                        let m = panic_msg(p);
+                        if m.starts_with("RUNAWAY") {
+                            rep.problem("hang", json!({"kind": "flush_never_ends"}), "flush keeps writing for ever although the writer takes every byte it is given".into(), case, si);
+                        } else {
+                            rep.problem("panic", json!({"kind": "panic_in_flush"}), format!("flush panicked: {m}"), case, si);
+                        }
                         return n;
                     }
                     Ok(None) => {
